@@ -487,6 +487,47 @@ def r14h(ctx, rep, cr):
     rep.floor('R14h', 'revoke calls inside the descendant loop', inloop, 1)
 
 
+def r14i(ctx, rep, cr):
+    rep.rule('R14i', 'a delegated grant exists only for a delegation that was accepted: in Vault::delegate no access edge is added '
+                     '(add_entity_graph_edge, directly or in a helper) unless the Ok edge of DelegationManager::register was taken. '
+                     'register is where self-delegation, cycles and chains beyond max_delegation_depth are refused; an edge written before '
+                     'it survives the refusal as a permanent grant that no delegation record points to, so neither revoke_delegation nor '
+                     'a cascading revocation ever removes it')
+    f = rep.require_fn('R14i', cr, 'tensor_vault::vault::Vault::delegate')
+    if f is None:
+        return
+    uses = A.Uses(f)
+    reg = A.calls_to(f, ('re', r'DelegationManager::register$'))
+    if not rep.floor('R14i', 'DelegationManager::register calls in delegate', len(reg), 1):
+        return
+    rep.analysed(f)
+    cut = set()
+    for c in reg:
+        cut |= set(A.call_outcome(f, c, uses).ok)
+    cg = ctx.callgraph(['tensor_vault'])
+    edge = re.compile(r'Vault::add_entity_graph_edge$|GraphEngine::create_edge\w*$')
+    R = A.reachable(f, [0], cut_edges=cut) if cut else set(range(len(f.bbs)))
+    bad = None
+    n = 0
+    for c in A.calls(f):
+        hit = edge.search(c.resolved) or (c.resolved in cg.fns and c.resolved.startswith('tensor_vault::') and
+                                          cg.path(c.resolved, lambda x: edge.search(x) is not None) is not None)
+        if not hit:
+            continue
+        n += 1
+        if c.bb in R:
+            bad = c
+    if not cut:
+        rep.unresolved_instance('R14i', f, 'register', 'Ok edge of register not recognised')
+    elif bad is not None:
+        rep.violation('R14i', f, 'edge-before-register', f.loc(bad.line),
+                      '%s is reachable before DelegationManager::register has accepted the delegation: when register refuses (depth limit, '
+                      'cycle, self-delegation) the child keeps a live grant' % lib.short(bad.resolved))
+    else:
+        rep.holds('R14i', f, 'edges after register', '%d edge-adding call(s), all behind register\'s Ok edge' % n)
+    rep.floor('R14i', 'edge-adding calls in delegate', n, 1)
+
+
 def run(ctx, rep):
     cr = ctx.crate('tensor_vault')
     cg = ctx.callgraph(['tensor_vault'])
@@ -498,3 +539,4 @@ def run(ctx, rep):
     r14f(ctx, rep, cr)
     r14g(ctx, rep, cr)
     r14h(ctx, rep, cr)
+    r14i(ctx, rep, cr)
